@@ -122,6 +122,11 @@ class HistoryRunner:
             from sc3.base.systemactions import CmdPeriod
             CmdPeriod.run()
             return True
+        if name == 'other_registry_run':
+            # running another system registry is none of the responders' business
+            from sc3.base import systemactions as sac
+            getattr(sac, op[1]).run()
+            return True
         rid = op[1]
         obj = self.objs.get(rid)
         if obj is None:
@@ -163,6 +168,8 @@ class HistoryRunner:
         m, name = self.model, op[0]
         if name == 'create':
             self._model_create(op[1])
+        elif name == 'other_registry_run':
+            pass
         elif name == 'cmd_period':
             for r in m.resps.values():
                 if r.enabled and not r.permanent:
@@ -552,7 +559,7 @@ class HistoryRunner:
         rng, m = self.rng, self.model
         n_ops = rng.choice([rng.randint(4, 12), rng.randint(10, 30), rng.randint(20, 50)])
         weights = {'create': 5, 'msg': 11, 'disable': 1.2, 'enable': 1.5, 'free': 1,
-                   'one_shot': 1.6, 'set_func': 1, 'cmd_period': 0.4, 'set_perm': 0.6,
+                   'one_shot': 1.6, 'set_func': 1, 'cmd_period': 0.4, 'other_registry_run': 0.3, 'set_perm': 0.6,
                    'arm': 1.6}
         names, ws = zip(*weights.items())
         try:
@@ -568,6 +575,8 @@ class HistoryRunner:
                     self.send()
                 elif name == 'cmd_period':
                     self.top_op(('cmd_period',))
+                elif name == 'other_registry_run':
+                    self.top_op(('other_registry_run', rng.choice(['StartUp', 'ShutDown'])))
                 elif not alive:
                     continue
                 elif name == 'arm':
